@@ -539,6 +539,24 @@ def run (v : Variant) (s : St) : List Ev → St
   | [] => s
   | e :: es => run v (step v s e) es
 
+/-! ## A process that connects several times
+
+`client.connect(reactor, busAddress)` keeps nothing between calls: every call asks `getDBusEndpoints` for the
+endpoint list - which builds a NEW list (`epl = []`) from the address string and the environment, a function of
+these two and of nothing else (no module-level state in txdbus/endpoints.py) -, reverses and pops THAT list, and
+makes its own factory and Deferred.  A process that connects several times with the same address string - a
+reconnect after a loss, two connections side by side - is therefore as many independent runs of the same
+`connect`, each over the whole list (validated by the stream `lifecycle-reconnect`, which shares one reactor and
+one interpreter state among the connects of a scenario). -/
+
+/-- One `client.connect(reactor, addr)` followed by the history `h` of that connection. -/
+def connectOne (v : Variant) (env : Env) (addr : Str) (h : List Ev) : Except Err St :=
+  (getDBusEndpoints env addr).map fun eps => run v (connect eps) h
+
+/-- The connects of one process with one address string, `hs[k]` being the history of the k-th connection. -/
+def connectMany (v : Variant) (env : Env) (addr : Str) (hs : List (List Ev)) : List (Except Err St) :=
+  hs.map (connectOne v env addr)
+
 /-! ## Observations used by the property statements -/
 
 /-- The connection attempt is over (one way or the other). -/
